@@ -195,6 +195,28 @@ class ElemSets:
         self._ret[key] = out
         return out
 
+    def generic_elems(self, f, depth):
+        """elements the module-level tocimxml() can return: computed with
+        its recursive calls contributing what is already known, until
+        nothing is added"""
+        key = ('generic', f.fq)
+        if key in self._ret:
+            return self._ret[key]
+        known = set()
+        for _ in range(4):
+            self._ret[key] = known
+            self._ret.pop((f.fq, ()), None)
+            r = self.ret_elems(f, depth + 1)
+            self._ret.pop((f.fq, ()), None)
+            if r is None:
+                self._ret[key] = None
+                return None
+            if r <= known:
+                break
+            known = known | r
+        self._ret[key] = known
+        return known
+
     def ret_elems_at(self, m, consts, call, func, depth):
         """elements method m can return when called as `call` inside
         `func`: return paths of m whose conditions contradict the conditions
@@ -357,6 +379,26 @@ class ElemSets:
                                 return None
                             out |= rr_
                         return out
+                if rc is None and func.cls is None and \
+                        func.name == 'tocimxml' and \
+                        isinstance(e.func.value, ast.Name) and \
+                        e.func.value.id in func.params:
+                    # the generic converter hands its argument on to the
+                    # argument's own tocimxml(): any CIM object class
+                    out = set()
+                    for c_ in self.repo.module(OBJ).classes.values():
+                        m_ = c_.methods.get('tocimxml')
+                        if m_ is None:
+                            continue
+                        consts_ = {p_: d_.value for p_, d_ in
+                                   m_.param_defaults().items()
+                                   if isinstance(d_, ast.Constant)}
+                        r_ = self.ret_elems(m_, depth + 1, consts_)
+                        if r_ is None:
+                            return None
+                        out |= r_
+                    self.state_dependent = True
+                    return out
                 if rc is not None:
                     m = rc.find_method('tocimxml')
                     if m is not None:
@@ -385,10 +427,14 @@ class ElemSets:
                 return None
             if d == 'tocimxml':
                 f = self.repo.func_opt(OBJ, 'tocimxml')
-                if f is not None:
-                    # generic value conversion: VALUE / VALUE.ARRAY / any
-                    # object element - not determined
-                    return None
+                if f is not None and func.file == OBJ:
+                    # generic value conversion: VALUE / VALUE.ARRAY / the
+                    # element of any CIM object (least fixpoint over its
+                    # own recursive calls).  Only inside the object model:
+                    # the request encoder passes values its _iparam_*
+                    # helpers have normalised (C04.R4), which this analysis
+                    # does not see - undecided there.
+                    return self.generic_elems(f, depth)
             return None
         if isinstance(e, ast.Name):
             out = set()
